@@ -199,6 +199,37 @@ def run_case(cs):
             _check_dt(cs, "lastmod", rec["lastmod"], dmt, zone, z, {**ctx, "path": "sub", "mtime": dmt, "mtime_side": dside})
             for f, dg, a, hd in rec["content"]:
                 _check_dt(cs, "hashdate", hd, now, zone, z, {**ctx, "path": "sub"})
+    # ---- the same history flattened under another zone: the dates carried over must still denote the same instants
+    if rng.random() < 0.35:
+        zone2 = rng.choice([z2 for z2 in ZONES if z2 != zone])
+        clock.set_zone(zone2)
+        now2 = now + rng.randint(1, 400 * 86400)
+        clock.freeze(now2)
+        dest = os.path.join(d, "flat")
+        r2 = drive.run("flatten", [root, dest])
+        cs.evaluated()
+        cs.count("flatten_other_zone")
+        if r2.internal or r2.exit != 0:
+            cs.violation(classify.internal_key(r2) if r2.internal else "flatten-nonzero", {"kind": "flatten-failed", "exit": r2.exit, "exc": r2.exc_class}, {**ctx, **r2.brief()})
+        else:
+            z2 = zoneinfo.ZoneInfo(zone2)
+            for dp, dn, fn in os.walk(dest):
+                for f in fn:
+                    if f.startswith("packinglist_") and f.endswith(".mhl"):
+                        pm = xmlread.read_manifest(os.path.join(dp, f))
+                        c3 = {**ctx, "zone_flatten": zone2, "now_flatten": now2}
+                        _check_dt(cs, "creationdate", pm["creatorinfo"].get("creationdate"), now2, zone2, z2, c3)
+                        for rec in pm["hashes"]:
+                            for fmt, dg, a, hd in rec["entries"]:
+                                cs.count("carried_hashdate_checked")
+                                dt = _parse(hd) if hd else None
+                                if dt is None or dt.tzinfo is None or int(dt.timestamp()) != int(now):
+                                    cs.violation(
+                                        "aware-date-relabelled",
+                                        {"kind": "carried-date-instant", "attr": "hashdate", "via": "flatten", "same_wall_fields": dt is not None and dt.replace(tzinfo=None, microsecond=0) == _dt.datetime.fromtimestamp(now, z).replace(tzinfo=None, microsecond=0)},
+                                        {**c3, "path": rec["path"], "text": hd, "want_epoch": now},
+                                    )
+        clock.set_zone(zone)
     cs.count("zone:" + zone if zone in ZONES else "zone:other")
     cs.count("now_side:" + now_side)
     cs.sample({"zone": zone, "now": now, "now_side": now_side, "files": {k: list(v) for k, v in files.items()}})
